@@ -337,7 +337,7 @@ func (h *httpServerHandler) handlePostRequest(ctx context.Context, w http.Respon
 		if session != nil {
 			sessionID = session.GetID()
 		}
-		notificationSender := newSSENotificationSender(w, flusher, sessionID)
+		notificationSender := newSSENotificationSender(w, flusher, sessionID, sseResponder.sseWriter)
 		reqCtx := withNotificationSender(ctx, notificationSender)
 		if session != nil {
 			reqCtx = setSessionToContext(reqCtx, session)
